@@ -295,7 +295,17 @@ class Check(object):
         self.checker_cmds = []
         self.build = os.path.join(VERIF, 'build', '%s-%d' % (pid, os.getpid()))
         os.makedirs(self.build, exist_ok=True)
-        atexit.register(lambda: shutil.rmtree(self.build, ignore_errors=True))
+        if not os.environ.get('VERIF_KEEP_BUILD'):
+            atexit.register(lambda: shutil.rmtree(self.build, ignore_errors=True))
+        # scratch directories left behind by checks that were killed (older than three hours)
+        try:
+            now = time.time()
+            for d in os.listdir(os.path.join(VERIF, 'build')):
+                q = os.path.join(VERIF, 'build', d)
+                if re.match(r'C\d\d-\d+$', d) and now - os.path.getmtime(q) > 3 * 3600:
+                    shutil.rmtree(q, ignore_errors=True)
+        except OSError:
+            pass
         self.kf = known_findings()
 
     # ---- counting
@@ -337,10 +347,10 @@ class Check(object):
         if self.tier == 'thorough' and not os.environ.get('VERIF_NO_COQCHK'):
             # independent re-check of the compiled property file and its whole dependency cone
             mod = os.path.splitext(name)[0]
-            cmd = ['timeout', '2400', 'coqchk', '-o', '-silent', '-R', COQ, 'PyCraft']
-            for d, nm in extra_q:
+            cmd = ['timeout', '2400', 'coqchk', '-o', '-silent', '-R', COQ, 'PyCraft', '-Q', self.build, '']
+            for d, nm in extra_q:          # after the build dir, whose recursive mapping would otherwise rename gen/ to "gen"
                 cmd += ['-Q', d, nm]
-            cmd += ['-Q', self.build, '', mod]
+            cmd += [mod]
             p = subprocess.run(cmd, stdout=subprocess.PIPE, stderr=subprocess.STDOUT, cwd=self.build)
             txt = p.stdout.decode()
             self.checker_cmds.append('coqchk -o -R coq PyCraft %s' % mod)
